@@ -56,7 +56,9 @@ class DataStore(object):
             persistence.load_data(runs, discard_run_data)
 
     def get(self, filename, configurator, action):
-        if filename not in self._files:
+        # one file may be named in several ways (x.data, ./x.data, an absolute path)
+        key = os.path.abspath(filename) if filename else filename
+        if key not in self._files:
             source = determine_source_details(configurator)
             if configurator.use_rebench_db and source['commitId'] is None:
                 raise UIError("Reporting to ReBenchDB is enabled, "
@@ -82,8 +84,8 @@ class DataStore(object):
                     db = _ReBenchDB(configurator, self, self.ui)
                 p = _CompositePersistence(p, db)
 
-            self._files[filename] = p
-        return self._files[filename]
+            self._files[key] = p
+        return self._files[key]
 
     def create_run_id(self, benchmark: Benchmark, cores, input_size, var_value, tag, machine):
         if isinstance(cores, str) and cores.isdigit():
